@@ -44,6 +44,7 @@ func Explore(pkg *ssa.Package, fn string, sizes types.Sizes, budget time.Duratio
 		SCH = newScheduler()
 		sideMaps = map[*value]*hashmap{}
 		vtimeReset()
+		schedReset()
 		jsonStore = nil
 		i := newInterp(pkg.Prog, sizes)
 		ti := time.Now()
@@ -107,6 +108,10 @@ func intrinsic(name string, args []value) (value, bool) {
 	case "zzSymbolic":
 		return hasSym(args[0]), true
 	case "zzYield":
+		if SchedNondet {
+			SCH.preempt()
+			return nil, true
+		}
 		me := SCH.cur
 		SCH.switchAwayOnce(me)
 		return nil, true
